@@ -16,6 +16,8 @@ import (
 	"sort"
 	"strings"
 	"sync"
+	"sync/atomic"
+	"time"
 
 	"github.com/samsarahq/thunder/federation"
 	"github.com/samsarahq/thunder/graphql"
@@ -27,12 +29,12 @@ func init() { register("C06", runC06) }
 
 var fdUnionRe = regexp.MustCompile(`\bus\b`)
 
-type fdA struct{ Id int64 }
-type fdB struct{ Id int64 }
+type A struct{ Id int64 }
+type B struct{ Id int64 }
 type fdU struct {
 	schemabuilder.Union
-	*fdA
-	*fdB
+	*A
+	*B
 }
 
 // fdStore: the data every service and the monolith read
@@ -108,32 +110,32 @@ func fdBuild(name string, st *fdStore, has func(fdField) bool, federated bool) *
 			needB = true
 		}
 	}
-	mkA := func(id int64) *fdA {
+	mkA := func(id int64) *A {
 		if id == 0 {
 			return nil
 		}
-		return &fdA{Id: id}
+		return &A{Id: id}
 	}
-	mkB := func(id int64) *fdB {
+	mkB := func(id int64) *B {
 		if id == 0 {
 			return nil
 		}
-		return &fdB{Id: id}
+		return &B{Id: id}
 	}
 	var oa, ob *schemabuilder.Object
 	if needA {
 		if federated {
-			oa = sb.Object("A", fdA{}, schemabuilder.FetchObjectFromKeys(func(args struct{ Keys []*fdA }) []*fdA { return args.Keys }))
+			oa = sb.Object("A", A{}, schemabuilder.FetchObjectFromKeys(func(args struct{ Keys []*A }) []*A { return args.Keys }))
 		} else {
-			oa = sb.Object("A", fdA{})
+			oa = sb.Object("A", A{})
 		}
 		oa.Key("id")
 	}
 	if needB {
 		if federated {
-			ob = sb.Object("B", fdB{}, schemabuilder.FetchObjectFromKeys(func(args struct{ Keys []*fdB }) []*fdB { return args.Keys }))
+			ob = sb.Object("B", B{}, schemabuilder.FetchObjectFromKeys(func(args struct{ Keys []*B }) []*B { return args.Keys }))
 		} else {
-			ob = sb.Object("B", fdB{})
+			ob = sb.Object("B", B{})
 		}
 		ob.Key("id")
 	}
@@ -143,16 +145,16 @@ func fdBuild(name string, st *fdStore, has func(fdField) bool, federated bool) *
 		}
 		switch f.Typ + "." + f.Name {
 		case "Query.as":
-			q.FieldFunc("as", func() []*fdA {
-				out := []*fdA{}
+			q.FieldFunc("as", func() []*A {
+				out := []*A{}
 				for _, id := range st.RootAs {
 					out = append(out, mkA(id))
 				}
 				return out
 			})
 		case "Query.bs":
-			q.FieldFunc("bs", func() []*fdB {
-				out := []*fdB{}
+			q.FieldFunc("bs", func() []*B {
+				out := []*B{}
 				for _, id := range st.RootBs {
 					out = append(out, mkB(id))
 				}
@@ -163,27 +165,27 @@ func fdBuild(name string, st *fdStore, has func(fdField) bool, federated bool) *
 				out := []*fdU{}
 				for _, id := range st.RootU {
 					if id > 0 {
-						out = append(out, &fdU{fdA: mkA(id)})
+						out = append(out, &fdU{A: mkA(id)})
 					} else {
-						out = append(out, &fdU{fdB: mkB(-id)})
+						out = append(out, &fdU{B: mkB(-id)})
 					}
 				}
 				return out
 			})
 		case "Query.oneA":
-			q.FieldFunc("oneA", func() *fdA { return mkA(st.OneA) })
+			q.FieldFunc("oneA", func() *A { return mkA(st.OneA) })
 		case "Query.num":
 			q.FieldFunc("num", func(args struct{ N int64 }) int64 { return args.N * 2 })
 		case "A.a0", "A.a1", "A.a2":
 			i := int(f.Name[1] - '0')
-			oa.FieldFunc(f.Name, func(a *fdA) int64 { return st.A[a.Id].V[i] })
+			oa.FieldFunc(f.Name, func(a *A) int64 { return st.A[a.Id].V[i] })
 		case "A.aPlus":
-			oa.FieldFunc("aPlus", func(a *fdA, args struct{ N int64 }) int64 { return st.A[a.Id].V[0] + args.N })
+			oa.FieldFunc("aPlus", func(a *A, args struct{ N int64 }) int64 { return st.A[a.Id].V[0] + args.N })
 		case "A.b":
-			oa.FieldFunc("b", func(a *fdA) *fdB { return mkB(st.A[a.Id].B) })
+			oa.FieldFunc("b", func(a *A) *B { return mkB(st.A[a.Id].B) })
 		case "A.bs":
-			oa.FieldFunc("bs", func(a *fdA) []*fdB {
-				out := []*fdB{}
+			oa.FieldFunc("bs", func(a *A) []*B {
+				out := []*B{}
 				for _, id := range st.A[a.Id].Bs {
 					out = append(out, mkB(id))
 				}
@@ -191,12 +193,12 @@ func fdBuild(name string, st *fdStore, has func(fdField) bool, federated bool) *
 			})
 		case "B.b0", "B.b1":
 			i := int(f.Name[1] - '0')
-			ob.FieldFunc(f.Name, func(b *fdB) int64 { return st.B[b.Id].V[i] })
+			ob.FieldFunc(f.Name, func(b *B) int64 { return st.B[b.Id].V[i] })
 		case "B.a":
-			ob.FieldFunc("a", func(b *fdB) *fdA { return mkA(st.B[b.Id].A) })
+			ob.FieldFunc("a", func(b *B) *A { return mkA(st.B[b.Id].A) })
 		case "B.as":
-			ob.FieldFunc("as", func(b *fdB) []*fdA {
-				out := []*fdA{}
+			ob.FieldFunc("as", func(b *B) []*A {
+				out := []*A{}
 				for _, id := range st.B[b.Id].As {
 					out = append(out, mkA(id))
 				}
@@ -281,7 +283,10 @@ type fdWorld struct {
 	cancel   context.CancelFunc
 }
 
-func fdSetup(cs c06Case) (*fdWorld, error) {
+func fdSetup(cs c06Case) (*fdWorld, error) { return fdSetupRefresh(cs, 0) }
+
+// fdSetupRefresh: refreshSeconds > 0 makes the gateway re-fetch all schemas and replace its planner that often
+func fdSetupRefresh(cs c06Case, refreshSeconds int64) (*fdWorld, error) {
 	w := &fdWorld{}
 	execs := map[string]federation.ExecutorClient{}
 	for k := 0; k < cs.Partition.Services; k++ {
@@ -299,7 +304,11 @@ func fdSetup(cs c06Case) (*fdWorld, error) {
 	}
 	ctx, cancel := context.WithCancel(context.Background())
 	w.cancel = cancel
-	e, err := federation.NewExecutor(ctx, execs, &federation.SchemaSyncerConfig{SchemaSyncer: federation.NewIntrospectionSchemaSyncer(ctx, execs, nil)})
+	cfg := &federation.SchemaSyncerConfig{SchemaSyncer: federation.NewIntrospectionSchemaSyncer(ctx, execs, nil)}
+	if refreshSeconds > 0 {
+		cfg.SchemaSyncIntervalSeconds = func(context.Context) int64 { return refreshSeconds }
+	}
+	e, err := federation.NewExecutor(ctx, execs, cfg)
 	if err != nil {
 		cancel()
 		return nil, fmt.Errorf("gateway: %v", err)
@@ -358,6 +367,7 @@ func (w *fdWorld) federated(query string) (res interface{}, reqs []fdRequest, er
 
 func c06One(c *Ctx, m *Model, cs c06Case) {
 	rep := c.Rep
+	defer InflightDone()
 	w, err := fdSetup(cs)
 	if err != nil {
 		rep.Fail("harness_error", nil, cs, map[string]interface{}{"error": err.Error()})
@@ -366,6 +376,7 @@ func c06One(c *Ctx, m *Model, cs c06Case) {
 	defer w.cancel()
 	for _, query := range cs.Queries {
 		one := c06Case{Store: cs.Store, Partition: cs.Partition, Queries: []string{query}}
+		Inflight(one)
 		want, merr := w.monolith(query)
 		if merr != nil {
 			// not a valid query for the combined server: outside the property
@@ -384,11 +395,18 @@ func c06One(c *Ctx, m *Model, cs c06Case) {
 			continue
 		}
 		if Canon(fdStrip(got)) != Canon(fdStrip(wantJ)) {
-			rep.Fail("impl_ne_spec", c06KF("", query), one, map[string]interface{}{"what": "the gateway's answer differs from the combined server's", "query": query, "gateway": fdStrip(got), "monolith": fdStrip(wantJ), "requests": reqs})
-			if rep.ShouldStop() {
-				return
+			// known finding C06-7: the gateway leaves the __typename it selects on every union element for dispatching
+			// in the answer; anything beyond that is a new violation
+			if trimmed, cut := fdDropExtraTypename(fdStrip(got), fdStrip(wantJ)); cut && Canon(trimmed) == Canon(fdStrip(wantJ)) {
+				rep.Fail("impl_ne_spec", []string{"c06_union_typename_added"}, one, map[string]interface{}{"what": "the gateway's answer has a __typename on union elements that the query did not ask for", "query": query, "gateway": fdStrip(got), "monolith": fdStrip(wantJ)})
+				got = trimmed
+			} else {
+				rep.Fail("impl_ne_spec", c06KF("", query), one, map[string]interface{}{"what": "the gateway's answer differs from the combined server's", "query": query, "gateway": fdStrip(got), "monolith": fdStrip(wantJ), "requests": reqs})
+				if rep.ShouldStop() {
+					return
+				}
+				continue
 			}
-			continue
 		}
 		if !fdUnionRe.MatchString(query) {
 			c06Model(c, m, w, cs, query, got, wantJ)
@@ -399,6 +417,145 @@ func c06One(c *Ctx, m *Model, cs c06Case) {
 }
 
 func c06KF(errText, query string) []string { return nil }
+
+// fdDropExtraTypename removes "__typename" entries of got's objects where want's object at the same place has none.
+func fdDropExtraTypename(got, want interface{}) (interface{}, bool) {
+	cut := false
+	var walk func(g, w interface{}) interface{}
+	walk = func(g, w interface{}) interface{} {
+		switch gv := g.(type) {
+		case map[string]interface{}:
+			wv, ok := w.(map[string]interface{})
+			if !ok {
+				return g
+			}
+			o := map[string]interface{}{}
+			for k, x := range gv {
+				if _, has := wv[k]; !has && k == "__typename" {
+					cut = true
+					continue
+				}
+				o[k] = walk(x, wv[k])
+			}
+			return o
+		case []interface{}:
+			wv, ok := w.([]interface{})
+			if !ok || len(wv) != len(gv) {
+				return g
+			}
+			o := make([]interface{}, len(gv))
+			for i := range gv {
+				o[i] = walk(gv[i], wv[i])
+			}
+			return o
+		}
+		return g
+	}
+	return walk(got, want), cut
+}
+
+// c06Repro: the reproducers of the recorded findings on one fixed world (C06-7 is known; the others are fixed and must stay so)
+func c06Repro(rep *Report) {
+	st := &fdStore{A: map[int64]*fdARec{1: {V: [3]int64{1, 11, 21}, B: 0, Bs: []int64{0, 1}}, 2: {V: [3]int64{2, 12, 22}, B: 1}},
+		B: map[int64]*fdBRec{1: {V: [2]int64{30, 41}, A: 0, As: []int64{2}}}, RootAs: []int64{1, 0, 2}, RootBs: []int64{1}, RootU: []int64{1, -1}, OneA: 1}
+	owners := map[string][]string{}
+	for _, f := range fdPool {
+		owners[f.Typ+"."+f.Name] = []string{"s1"}
+	}
+	owners["A.a0"] = []string{"s2"}
+	owners["A.aPlus"] = []string{"s2"}
+	owners["B.b1"] = []string{"s2"}
+	cs := c06Case{Store: st, Partition: fdPartition{Services: 2, Owners: owners}}
+	w, err := fdSetup(cs)
+	if err != nil {
+		return
+	}
+	defer w.cancel()
+	run := func(id, query string, known bool) {
+		want, merr := w.monolith(query)
+		if merr != nil {
+			return
+		}
+		b, _ := json.Marshal(want)
+		var wantJ interface{}
+		json.Unmarshal(b, &wantJ)
+		got, _, gerr := w.federated(query)
+		fails := gerr != nil || Canon(fdStrip(got)) != Canon(fdStrip(wantJ))
+		rep.Repros[id] = Repro{Fails: fails, Detail: fmt.Sprintf("query %s: gateway %s (error %v), monolith %s", query, Canon(fdStrip(got)), gerr, Canon(fdStrip(wantJ)))}
+	}
+	run("C06-1", "query Q { as { b { b1 } } }", false)
+	run("C06-2", "query Q { bs { b1 @skip(if: true) } bs { b1 } x: bs { id } x: bs @include(if: false) { y: b0 } }", false)
+	run("C06-3", "query Q { oneA { id } oneA { aPlus(n: 1) @include(if: false) aPlus(n: 1) } }", false)
+	run("C06-4", "query Q { y: __typename }", false)
+	run("C06-7", "query Q { us { ... on A { id } } }", true)
+}
+
+// c06Refresh: requests from several goroutines while the gateway refreshes its schema every second
+func c06Refresh(c *Ctx, r *Rand, d time.Duration) {
+	rep := c.Rep
+	cs := c06Case{Store: c06GenStore(r), Partition: c06GenPartition(r)}
+	w, err := fdSetupRefresh(cs, 1)
+	if err != nil {
+		rep.Fail("harness_error", nil, cs, map[string]interface{}{"error": err.Error()})
+		return
+	}
+	defer w.cancel()
+	type job struct {
+		query string
+		want  interface{}
+	}
+	var jobs []job
+	for k := 0; k < 40; k++ {
+		q := c06GenQuery(r)
+		want, merr := w.monolith(q)
+		if merr != nil {
+			continue
+		}
+		b, _ := json.Marshal(want)
+		var wantJ interface{}
+		json.Unmarshal(b, &wantJ)
+		jobs = append(jobs, job{q, fdStrip(wantJ)})
+	}
+	deadline := time.Now().Add(d)
+	var wg sync.WaitGroup
+	var n int64
+	for g := 0; g < 4; g++ {
+		wg.Add(1)
+		go func(g int) {
+			defer wg.Done()
+			for i := g; time.Now().Before(deadline) && !rep.ShouldStop(); i++ {
+				j := jobs[i%len(jobs)]
+				q, perr := graphql.Parse(j.query, map[string]interface{}{})
+				if perr != nil {
+					continue
+				}
+				var res interface{}
+				var gerr error
+				if p := safely(func() { res, _, gerr = w.gateway.Execute(context.Background(), q, nil) }); p != nil {
+					gerr = fmt.Errorf("panic: %v", p)
+				}
+				one := c06Case{Store: cs.Store, Partition: cs.Partition, Queries: []string{j.query}}
+				if gerr != nil {
+					rep.Fail("impl_ne_spec", nil, one, map[string]interface{}{"what": "the gateway fails on a query while it refreshes its schema in the background", "query": j.query, "error": firstN(gerr.Error(), 400)})
+					return
+				}
+				b, _ := json.Marshal(res)
+				var got interface{}
+				json.Unmarshal(b, &got)
+				if trimmed, cut := fdDropExtraTypename(fdStrip(got), j.want); cut && Canon(trimmed) == Canon(j.want) {
+					rep.Count("refresh:known_finding_c06_union_typename_added")
+				} else if Canon(fdStrip(got)) != Canon(j.want) {
+					rep.Fail("impl_ne_spec", nil, one, map[string]interface{}{"what": "the gateway's answer differs from the combined server's while it refreshes its schema in the background", "query": j.query, "gateway": fdStrip(got), "monolith": j.want})
+					return
+				}
+				atomic.AddInt64(&n, 1)
+			}
+		}(g)
+	}
+	wg.Wait()
+	rep.Count(fmt.Sprintf("requests_during_refresh~%d", atomic.LoadInt64(&n)/1000*1000))
+	rep.Eval("refresh:"+Canon(cs.Partition), true, map[string]interface{}{"requests_during_refresh": atomic.LoadInt64(&n), "seconds": d.Seconds()})
+}
 
 // ---- generators ---------------------------------------------------------------------------------------
 
@@ -453,8 +610,105 @@ func c06GenPartition(r *Rand) fdPartition {
 	return p
 }
 
+// a named fragment: unaliased fields only, so that it can be spread at any place whose aliases it agrees with
+type c06FragField struct {
+	name, args, child string
+	sub               []c06FragField
+}
+type c06Frag struct {
+	name, typ string
+	fields    []c06FragField
+	used      bool
+}
+
+func (g *c06QGen) genFragFields(typ string, depth int) []c06FragField {
+	r := g.r
+	var out []c06FragField
+	seen := map[string]bool{}
+	for k := 1 + r.Intn(3); k > 0; k-- {
+		var f c06FragField
+		switch typ {
+		case "A":
+			f.name = []string{"id", "a0", "a1", "a2", "aPlus", "__typename", "b", "bs"}[r.Intn(8)]
+		case "B":
+			f.name = []string{"id", "b0", "b1", "__typename", "a", "as"}[r.Intn(6)]
+		}
+		if seen[f.name] {
+			continue
+		}
+		seen[f.name] = true
+		if f.name == "aPlus" {
+			f.args = "(n: 1)"
+		}
+		switch f.name {
+		case "b", "bs":
+			f.child = "B"
+		case "a", "as":
+			f.child = "A"
+		}
+		if f.child != "" {
+			if depth == 0 {
+				continue
+			}
+			f.sub = g.genFragFields(f.child, depth-1)
+			if len(f.sub) == 0 {
+				f.sub = []c06FragField{{name: "id"}}
+			}
+		}
+		out = append(out, f)
+	}
+	return out
+}
+
+func c06PrintFragFields(fs []c06FragField) string {
+	var parts []string
+	for _, f := range fs {
+		p := f.name + f.args
+		if f.child != "" {
+			p += " { " + c06PrintFragFields(f.sub) + " }"
+		}
+		parts = append(parts, p)
+	}
+	return strings.Join(parts, " ")
+}
+
+// fits: spreading the fields at path does not make an alias stand for two different fields
+func (g *c06QGen) fits(fs []c06FragField, path string) bool {
+	for _, f := range fs {
+		if prev, ok := g.at(path)[f.name]; ok && prev != f.name+f.args {
+			return false
+		}
+		if f.child != "" && !g.fits(f.sub, path+"/"+f.name) {
+			return false
+		}
+	}
+	return true
+}
+
+func (g *c06QGen) commit(fs []c06FragField, path string) {
+	for _, f := range fs {
+		g.at(path)[f.name] = f.name + f.args
+		if f.child != "" {
+			g.commit(f.sub, path+"/"+f.name)
+		}
+	}
+}
+
+// spread: a spread of one of the query's named fragments on typ, if one fits here
+func (g *c06QGen) spread(typ, path string) string {
+	for _, fr := range g.frags {
+		if fr.typ == typ && g.r.Chance(0.5) && g.fits(fr.fields, path) {
+			g.commit(fr.fields, path)
+			fr.used = true
+			return " ..." + fr.name + g.dirs()
+		}
+	}
+	return ""
+}
+
 type c06QGen struct {
-	r *Rand
+	frags []*c06Frag
+	r     *Rand
 	// used[path][alias] = "name(args)" the alias stands for on the object at that response path: occurrences that
 	// the server merges (same path) must agree on what an alias means
 	used map[string]map[string]string
@@ -555,6 +809,7 @@ func (g *c06QGen) sels(typ string, depth int, path string) string {
 // body: selections plus inline fragments on the same type (nested), repeating aliases
 func (g *c06QGen) body(typ string, depth int, path string) string {
 	s := g.sels(typ, depth, path)
+	s += g.spread(typ, path)
 	for k := 0; k < 2; k++ {
 		if g.r.Chance(0.25) {
 			s += " ... on " + typ + g.dirs() + " { " + g.body(typ, depth, path) + " }"
@@ -579,7 +834,19 @@ func (g *c06QGen) unionBody(depth int, path string) string {
 
 func c06GenQuery(r *Rand) string {
 	g := &c06QGen{r: r, used: map[string]map[string]string{}}
-	return "query Q { " + g.sels("Query", 1+r.Intn(3), "") + " }"
+	if r.Chance(0.35) {
+		for k := 1 + r.Intn(2); k > 0; k-- {
+			typ := []string{"A", "B"}[r.Intn(2)]
+			g.frags = append(g.frags, &c06Frag{name: fmt.Sprintf("F%d", k), typ: typ, fields: g.genFragFields(typ, 1+r.Intn(2))})
+		}
+	}
+	q := "query Q { " + g.sels("Query", 1+r.Intn(3), "") + " }"
+	for _, fr := range g.frags {
+		if fr.used && len(fr.fields) > 0 {
+			q += " fragment " + fr.name + " on " + fr.typ + " { " + c06PrintFragFields(fr.fields) + " }"
+		}
+	}
+	return q
 }
 
 func runC06(c *Ctx) error {
@@ -604,7 +871,9 @@ func runC06(c *Ctx) error {
 		fmt.Printf("replay: %d failures\n", len(c.Rep.Failures))
 		return nil
 	}
+	c06Repro(c.Rep)
 	r := c.Rng
+	rr := r.Fork()
 	n := c.N(60, 3000)
 	for i := 0; i < n && !c.Rep.ShouldStop(); i++ {
 		cs := c06Case{Store: c06GenStore(r), Partition: c06GenPartition(r)}
@@ -612,6 +881,10 @@ func runC06(c *Ctx) error {
 			cs.Queries = append(cs.Queries, c06GenQuery(r))
 		}
 		c06One(c, m, cs)
+	}
+	// requests while the schema is refreshed in the background (at least two refreshes)
+	if !c.Rep.ShouldStop() {
+		c06Refresh(c, rr, time.Duration(c.N(2300, 8000))*time.Millisecond)
 	}
 	return nil
 }
